@@ -167,6 +167,13 @@ func checkTag(c *tagCase, o *vk.Obs) []string {
 			var nLo, nHi bool
 			sLo, nLo = cmp(x, lo)
 			sHi, nHi = cmp(x, hi)
+			// the GCU prefixes are negative powers of ten, which no float64 unit table can hold exactly: a label
+			// that EQUALS a bound written with another prefix (1 microgcu against 1000nanogcu) is as undecidable
+			// for float arithmetic as one within 1e-9 of it. Bytes and time units have whole-number factors.
+			if lb.Unit.Fam == 2 {
+				nLo = nLo || (sLo == 0 && lb.Unit.Idx != c.LoU.Idx)
+				nHi = nHi || (sHi == 0 && lb.Unit.Idx != c.HiU.Idx)
+			}
 			switch c.Form {
 			case 0:
 				match, decided = sLo == 0, !nLo
